@@ -15,6 +15,10 @@ Decided clauses:
   R20.4 ownership on every path: an allocation is released at most once, never used after release,
         and at every exit is either released, returned, or handed to a parameter-rooted owner;
         local owner objects that acquired memory through a callee are released on every exit.
+  R20.5 no dangling owner: when a pointer that is (also) held in caller-visible memory - loaded from,
+        or previously stored into, a parameter- or global-rooted cell - is released, that cell is
+        overwritten, re-initialised by a callee, or released together with its object before the
+        function returns (the clean-up code of the owners releases whatever the cell still holds).
 NOT decided: that malloc/mmap themselves behave per POSIX; arithmetic of the requested sizes.
 """
 from .. import terms as T
@@ -132,6 +136,7 @@ def analyse(prog, chk, cname):
             scope.append(f)
     chk.floor("R20", "functions in scope with fallible / release calls" + tag, len(scope), 25)
     nalloc = nsucc = nown = 0
+    ndangle = [0]
     alloc_sites = set()
     for fn in scope:
         try:
@@ -288,6 +293,48 @@ def analyse(prog, chk, cname):
                         chk.ob("R20.4", fn, "allocation at %s is released, returned or owned at exit" % fn.loc(e.iid) + tag, ok,
                                loc=fn.loc(p.end_iid), detail="" if ok else "leaked on this path", path=None if ok else p,
                                key="R20.4 %s leak" % fn.sname)
+                # ---------------- R20.5 no dangling pointer is left in caller-visible memory ---------------
+                if p.kind == "ret":
+                    loads = {l.res: l for l in p.events if l.kind == "load" and l.res is not None}
+                    for u in p.calls():
+                        un = u.callee_name()
+                        if un not in RELEASE or un == "argon2_finalize" or RELEASE[un] >= len(u.args):
+                            continue
+                        if un == "munmap" and u.res is not None and p.facts.zeroness(u.res) == "NZ":
+                            continue        # munmap() reported failure: the mapping is still there
+                        v = u.args[RELEASE[un]]
+                        cells = []
+                        if v in loads and T.root(loads[v].addr)[0] != "alloca":
+                            la = loads[v]
+                            # the cell still holds v at the release unless it was overwritten in between
+                            if not any(w.kind == "store" and w.addr == la.addr and w.val != v and la.idx < w.idx < u.idx
+                                       for w in p.events):
+                                cells.append(la.addr)
+                        last = {}
+                        for w in p.events[:u.idx]:
+                            if w.kind == "store" and T.root(w.addr)[0] != "alloca":
+                                last[w.addr] = w.val
+                        cells += [a for a, val in last.items() if val == v and a not in cells and v[0] != "c"]
+                        for A in cells:
+                            rootA = T.root(A)
+                            ndangle[0] += 1
+                            ok = False
+                            for w in p.events[u.idx + 1:]:
+                                if w.kind == "store" and w.addr == A:
+                                    ok = True
+                                elif w.kind == "call":
+                                    wn = w.callee_name()
+                                    if wn in RELEASE and RELEASE[wn] < len(w.args) and T.root(w.args[RELEASE[wn]]) in (rootA, v):
+                                        ok = True       # the object holding the cell is itself released
+                                    elif wn not in RELEASE and cm.writes_through(prog, p, w, rootA):
+                                        ok = True       # re-initialised by a callee
+                            # a cell inside the released block itself needs no clearing
+                            if rootA == T.root(v) or (v in loads and T.root(A) == v):
+                                ok = True
+                            chk.ob("R20.5", fn, "pointer released by %s at %s does not stay in caller-visible memory (%s)"
+                                   % (un, fn.loc(u.iid), T.show(A, fn)) + tag, ok, loc=fn.loc(u.iid),
+                                   detail="" if ok else "the cell still holds the released pointer at the return: the owner's clean-up "
+                                   "will use / release it again", path=None if ok else p, key="R20.5 %s dangling" % fn.sname)
                 # local owner objects that acquired memory through a callee
                 if p.kind == "ret":
                     for e in p.calls():
@@ -318,6 +365,7 @@ def analyse(prog, chk, cname):
     chk.floor("R20.1", "allocator call sites in scope" + tag, len(alloc_sites), 8)
     chk.floor("R20.2", "fallible steps on success exits" + tag, nsucc, 60)
     chk.floor("R20.4", "allocation / owner obligations" + tag, nown, 30)
+    chk.floor("R20.5", "released pointers that were held in caller-visible memory" + tag, ndangle[0], 3)
 
     # ---- R20.2b: results of fallible calls reach a branch or a return (flow-insensitive use-def) -----
     ndrop = 0
